@@ -2,11 +2,11 @@
    Proofs/C04*.v; Print Assumptions beneath each.
    TODO (unproved), compared on every generated case instead (see harness/c04/NOTES.md):
      generator_resumable    : wf -> obs (commit acts) = spec_exec acts   (re-entrant)
-     deferred_when_reached, declaration order within a phase for re-entrant runs *)
+     declaration order within a phase for re-entrant runs *)
 From Coq Require Import List NArith ZArith Bool Sorted.
 Import ListNotations.
 Require Import Verif.Lib.Wire Verif.Lib.C04Sort Verif.Gen.Facts_C04 Verif.Model.C04.
-Require Import Verif.Proofs.C04 Verif.Proofs.C04_flat Verif.Proofs.C04_decide Verif.Proofs.C04_safe Verif.Proofs.C04_groups Verif.Proofs.C04_spec Verif.Proofs.C04_mono Verif.Proofs.C04_one.
+Require Import Verif.Proofs.C04 Verif.Proofs.C04_flat Verif.Proofs.C04_decide Verif.Proofs.C04_safe Verif.Proofs.C04_groups Verif.Proofs.C04_spec Verif.Proofs.C04_mono Verif.Proofs.C04_one Verif.Proofs.C04_defer.
 
 (* the regenerated facts say: both repairs are in place (every new action is tested against an
    already executed one; discarded actions leave remaining_actions) *)
@@ -151,6 +151,26 @@ Theorem C04_one_per_discriminator : forall acts,
   NoDup (somes (map D (commit_trace cfg_current acts))).
 Proof. exact (one_per_discriminator cfg_current). Qed.
 Print Assumptions C04_one_per_discriminator.
+
+(* DEFERRED DISCRIMINATORS ARE FORCED EXACTLY WHEN THEIR PHASE IS REACHED (generator-step level, re-entrant runs
+   included).  [GI st g] is the invariant of a suspended generator proved to hold along every run whose orders are
+   ints (Proofs/C04_mono.v: pending groups have strictly increasing homogeneous keys above the phase in progress).
+   The step handing out action [a] forces precisely the still-deferred pending actions of phase <= phase of [a];
+   later phases stay deferred; continuing the phase in progress forces nothing. *)
+Theorem C04_deferred_when_reached : forall st g a st2 g2 e,
+  GI st g -> gen_next cfg_current st g = SYield a st2 g2 e ->
+  e = forces (reached (ordkey a) (concat (map snd (g_groups g)))).
+Proof. exact (deferred_when_reached cfg_current). Qed.
+Print Assumptions C04_deferred_when_reached.
+
+(* ... read on remaining_actions right after actions were (re-)declared *)
+Theorem C04_deferred_when_reached_restart : forall st new a st2 g2 e,
+  Forall Pact (remaining st) -> Forall Pact new ->
+  gen_next cfg_current (fst (restart st new)) (snd (restart st new)) = SYield a st2 g2 e ->
+  e = forces (reached (ordkey a)
+                (sort (leb_by orderandpos_key) (enumerate (start st) (remaining st ++ new)))).
+Proof. exact (deferred_when_reached_restart cfg_current). Qed.
+Print Assumptions C04_deferred_when_reached_restart.
 
 (* the unrepaired code (both parameters off) contradicts the specification: DESIGN.md section 5 item 3 *)
 Theorem C04_commit_spec_refuted_crossphase :
